@@ -494,6 +494,12 @@ def check_signer(ctx, S, M, rng, w):
                     ctx.event('signer-no-default-cert-refused')
                 return
         judge_signer(ctx, S, M, args, exp_key, exp_loc, dict(w, form=form), rng)
+        if isinstance(args.get('key_locator'), list):
+            # the name list passed as key locator is the caller's: it goes on editing it, then asks again with an equal, fresh list
+            orig = list(args['key_locator'])
+            args['key_locator'].append(C(b'edited-by-caller'))
+            ctx.event('key-locator-list-edited-by-the-caller-after-the-call')
+            judge_signer(ctx, S, M, dict(args, key_locator=list(orig)), exp_key, T(orig), dict(w, form=form + '+locator-list-edited-after-the-first-call'), rng)
     except Exception as e:   # noqa
         ctx.report(f'signer-check-raises:{type(e).__name__}@{raising_site(e)[0]}', f'{e!r}', dict(w, form=form))
 
